@@ -381,7 +381,7 @@ pub fn check_free(c: &Case, obs: &mut Obs) -> Result<(), String> {
 pub fn property() -> Property {
     Property {
         id: "C02",
-        rule: "Patterns = base (14 bases incl. empty, with '-', '--', non-ASCII, glob characters) followed by 0-3 operators, each any of < <= > >=, with bounds from a letter-free pool incl. the empty bound (so all 16 two-operator orders, adjacent operators and the 0/3-operator errors occur), occasionally followed by '=', '-', non-ASCII. Names = related base (equal 55%, proper prefix / suffix, extended by -x, first '-'-segment, case-flipped, prefixed, unrelated) + '-' + version from the pool, or without any '-'. Oracle: M-dewey-pattern (compile: Ok/Err must agree for Dewey::new and Pattern::new; matches: Dewey::matches = Pattern::matches = model). A second stream enumerates the product space completely; a third pairs ~1 800 real pkgsrc dewey patterns with real package versions and with their own bounds (letters allowed, KF-1 region judged as in C01). Non-trivial = the pattern is rejected, or it compiles and the name has a '-'. Distinct = distinct (pattern, name).",
+        rule: "Patterns = base (14 bases incl. empty, with '-', '--', non-ASCII, glob characters) followed by 0-3 operators, each any of < <= > >=, with bounds from a letter-free pool incl. the empty bound (so all 16 two-operator orders, adjacent operators and the 0/3-operator errors occur), occasionally followed by '=', '-', non-ASCII. Names = related base (equal 55%, proper prefix / suffix, extended by -x, first '-'-segment, case-flipped, prefixed, unrelated) + '-' + version from the pool, or without any '-'. Oracle: M-dewey-pattern (compile: Ok/Err must agree for Dewey::new and Pattern::new; matches: Dewey::matches = Pattern::matches = model). A second stream enumerates the product space completely; a third pairs ~1 800 real pkgsrc dewey patterns with real package versions and with their own bounds (letters allowed, KF-1 region judged as in C01). Non-trivial = the pattern is rejected, or it compiles and the name has a '-'. Distinct = distinct (pattern, name). Generators also draw, at low weight, tokens from the source-literal dictionary (every string / byte / character literal of the library's own source, collected at build time and filtered by this domain's character class) (stream free-form: dictionary bases, bounds and versions as free C01 token sequences, a bound edited into the version, KF-1 leniency); in every stream the candidate is now and then the pattern's own text.",
         assumptions: vec![
             "bounds and versions are letter-free, so known finding KF-1 cannot influence a verdict",
             "M-dewey-pattern and M-dewey are written from the statements of C02 / C01",
